@@ -61,7 +61,13 @@ def async_part(chk: Check, view: AsyncView):
     arg = call.args[0]
     apps = [e for e in r.events if e.kind == "call" and e.name == "self._record_steps.append"]
     chk.floor("C13.origin", "record appends in push_step", len(apps), 1)
-    normal = [e for e in apps if not mentions(e.guard, "skipped_steps")]
+    def _regular(e):
+        # the append also happens for an ordinary step: its guard stays satisfiable when the tests on `skipped_steps` fail
+        g = e.guard
+        for a in [a for a in flow.bool_atoms(g, []) if mentions(a, "skipped_steps")]:
+            g = T.assume(g, a, False)
+        return g
+    normal = [e for e in apps if _regular(e) != T.FALSE]
     if len(normal) != 1:
         chk.unknown("C13.origin", "async record", f"expected one regular record append in push_step, found {len(normal)}", chk.loc(fi))
         return
@@ -69,13 +75,13 @@ def async_part(chk: Check, view: AsyncView):
     loc = chk.loc(fi, app.node)
     # a row appended for a step that was skipped (the supervisor's pending step at stop / reset) carries no output of its own:
     # every output leaf is None (get_record drops it); it must not be filled from another step
-    for e in [x for x in apps if x is not app]:
+    for e in [x for x in apps if x is not app or mentions(x.guard, "skipped_steps")]:
         rs = _no_isinstance(e.args[0], True)
         outv = dict(rs[2]).get("output") if rs[0] == "replace" else None
         ok_sk = outv == T.NONE  # tree_map(lambda x: None, <template>) is None on every leaf
         chk.add("C13.rows", "row of a skipped step carries no output", bool(ok_sk), f"the row appended for a skipped supervisor step gets output = {T.show(outv)[:120] if outv else None}, "
                 "expected an all-None tree (a never-executed step must not show an output)", chk.loc(fi, e.node))
-    rec0 = _no_isinstance(app.args[0], False)
+    rec0 = _no_isinstance(T.assume(app.args[0], _regular(app), True) if _regular(app) not in (T.TRUE, T.FALSE) else app.args[0], False)
     for clock, cterm in (("SIMULATED", SIMULATED), ("WALL_CLOCK", WALL)):
         rec = T.subst(rec0, {CLOCK: cterm})
         if rec[0] != "replace" or rec[1] != p[3]:
